@@ -35,6 +35,15 @@ def _through_json(encoded):
     return C.json.loads(text, object_hook=DEC.postprocess)
 
 
+def _roundtrip(obj):
+    """the repository's own encode -> text -> decode (caching.encode / caching.decode), with the document required to be pure ASCII:
+    it is written with write_text() and read with read_text() / bytes.decode() in whatever locale the reading process has"""
+    text = C.encode(obj)
+    if not text.doc.ascii_only:
+        raise AssertionError("the index document contains non-ASCII characters: not self-contained text for a process with another default encoding")
+    return C.decode(text, records_per_chunk=1)
+
+
 def _valid(v):
     return (v == NAT) | ((-LIM <= v) & (v <= LIM))
 
@@ -152,7 +161,7 @@ def tuples_ok(shape: int, a: int, b: int, c: int, flag: bool) -> bool:
         # a variable's attrs and a group's attrs take the same route
         v = Variable(["rows"], [a, b], {"t": x})
         g = Group("p", None, {"v": v}, {"u": x})
-        dec = DEC.decode_hierarchy(_through_json(ENC.encode_hierarchy(g)), records_per_chunk=1)
+        dec = _roundtrip(g)
         ok = ok & _eq_typed(dec.attrs["u"], x) & _eq_typed(dec["v"].attrs["t"], x)
     return ok
 
@@ -194,7 +203,7 @@ def hierarchy_ok(t0: int, t1: int, t2: int, t3: int, nested: bool, empty: bool, 
             # open_image names the (flat) image group after construction; the name may be empty: no polarisation, no scan
             g = Group("placeholder", None if url_none else "memory://u", data, attrs)
             g.path = PATHS[path_idx]
-        dec = DEC.decode_hierarchy(_through_json(ENC.encode_hierarchy(g)), records_per_chunk=1)
+        dec = _roundtrip(g)
         ok = isinstance(dec, Group) & (dec.path == g.path) & (dec.url == g.url) & (list(dec.data) == list(g.data)) & _eq_typed(dec.attrs, g.attrs)
         for name, var in variables.items():
             ok = ok & isinstance(dec[name], Variable) & _same_var(g[name], dec[name])
